@@ -264,9 +264,9 @@ pub fn simulate(env: &Env, wl: &Workload, mode: Mode, opts: &SimOpts) -> SimResu
         let f2 = fresh.clone();
         let u0 = uris2[0].clone();
         let t0 = texts[0].clone();
-        let opened = env.rt.block_on(async move { tokio::time::timeout(Duration::from_secs(30), f2.did_open(DidOpenTextDocumentParams { text_document: TextDocumentItem { uri: u0, language_id: "sway".into(), version: 1, text: t0 } })).await });
+        let opened = env.rt.block_on(async move { tokio::time::timeout(Duration::from_secs(180), f2.did_open(DidOpenTextDocumentParams { text_document: TextDocumentItem { uri: u0, language_id: "sway".into(), version: 1, text: t0 } })).await });
         if opened.is_err() {
-            obs.ref_failed = Some("fresh server: didOpen did not return within 30 s".into());
+            obs.ref_failed = Some("fresh server: didOpen did not return within 180 s".into());
         } else {
             for uri in &uris2 {
                 let s2 = fresh.clone();
